@@ -363,6 +363,12 @@ func genTree(rng *rand.Rand, nrec int) *mon.AuditJSON {
 	}
 	for i := 0; i < nrec; i++ {
 		a := mk(i)
+		if len(pool) > 2 && rng.Intn(4) == 0 {
+			// a second execution of an earlier task (resumed runs: the ancestor was removed and recomputed while some of
+			// its consumers were kept): another record - id, times - for the same file; different descendants embed the
+			// one or the other under the same Upstream key
+			a.OutFiles["out"] = pool[rng.Intn(len(pool))].OutFiles["out"]
+		}
 		// upstream: up to 3 earlier records (DAG sharing) and sometimes a source file
 		nup := 0
 		if len(pool) > 0 {
@@ -403,7 +409,7 @@ func c20(args []string) {
 	if err != nil {
 		c.Broken(err.Error())
 	}
-	c.Rule("(a) audit files of real runs of flat-path workflows built from plain shell commands (cat, tr, sed, rev, sort, wc, printf / awk with percent signs, multi-line commands with significant blanks, parameters used in the output name only; chains of depth 1-5, diamonds with a shared ancestor - also one whose branches start at the two outputs of one task -, sub-stream joins, parameters; also produced by resumed runs: RunTo a prefix, then Run) and (b) audit trees generated directly (1-60 records, DAG-shaped sharing, equal / whole-second / zero start times, parameters and tags with underscores, source-file pseudo records) are converted with the CLI built from /repo/cmd/scipipe (audit2html, audit2tex, audit2bash; in every second case a longer stale report of the same name already exists); the outputs are parsed back and compared with the record flattened by id: every task (non-empty process name) listed exactly once, in non-decreasing start-time order, with its command, parameters and tags as the format prints them; for (a) the generated Bash script is executed in a directory holding only the source files and must re-create the file byte-identically. distinct_nontrivial = distinct audit trees with >= 2 tasks whose three conversions were all compared")
+	c.Rule("(a) audit files of real runs of flat-path workflows built from plain shell commands (cat, tr, sed, rev, sort, wc, printf / awk with percent signs, multi-line commands with significant blanks, parameters used in the output name only; chains of depth 1-5, diamonds with a shared ancestor - also one whose branches start at the two outputs of one task -, sub-stream joins, parameters; also produced by resumed runs: RunTo a prefix, then Run) and (b) audit trees generated directly (two records of different executions for one file path in a tree, as resumed runs leave them; 1-60 records, DAG-shaped sharing, equal / whole-second / zero start times, parameters and tags with underscores, source-file pseudo records) are converted with the CLI built from /repo/cmd/scipipe (audit2html, audit2tex, audit2bash; in every second case a longer stale report of the same name already exists); the outputs are parsed back and compared with the record flattened by id: every task (non-empty process name) listed exactly once, in non-decreasing start-time order, with its command, parameters and tags as the format prints them; for (a) the generated Bash script is executed in a directory holding only the source files and must re-create the file byte-identically. distinct_nontrivial = distinct audit trees with >= 2 tasks whose three conversions were all compared")
 	c.Assume("source-file pseudo records (empty process name) are not tasks and are not judged", "TeX: '_' is printed as '\\_' and parameters as k=v; Bash: '../' is removed from commands by the template")
 	rng := c.Rand("c20")
 	type job struct {
